@@ -218,7 +218,7 @@ def plan(tier):
 
 
 def shards(tier):
-    return layers.shards(plan(tier), ('order', 'args', 'char', 'nest10', 'sibs'))
+    return layers.shards(plan(tier), ('order', 'args', 'char', 'nest10', 'sibs', 'long'))
 
 
 def prepare(tier):
@@ -251,7 +251,7 @@ SIGNATURES = {}
 
 def coverage(tier, total):
     return {
-        'rule': 'every node of every L_wf document of: %s, of the order, argument and character layers, of the sibling layer (4-8 siblings) and of the nest layer to depth 10; the expression graph is a tree; contents vs expr.all, children, iteration, indexing, '
+        'rule': 'every node of every L_wf document of: %s, of the order, argument and character layers, of the sibling layer (4-8 siblings), of six long documents and of the nest layer to depth 10; the expression graph is a tree; contents vs expr.all, children, iteration, indexing, '
                 'descendants vs closure and generator node count, text vs generator leaves, root concatenation, parent '
                 'links and chains' % ', '.join('%s <= %d nodes' % p for p in layers.PLAN[plan(tier)]),
         'layers': dict(total.hist),
